@@ -209,7 +209,13 @@ def e4(run: Run, prog: Program):
         for p_ in ts:
             if p_.endswith("1"):
                 seeds[p_] = p_[:-1] + "2"
-        ex = Exchange(m.node, seeds, symmetric=tuple(assumed)).run()
+        from .exchange import inline_helpers
+
+        def resolve(name, _es=es):
+            h = _es.methods.get(name)
+            return h.node if h is not None and name.startswith("_") else None
+        node = inline_helpers(m.node, resolve)
+        ex = Exchange(node, seeds, symmetric=tuple(assumed)).run()
         n += len(ex.assigns)
         for a, why in assumed.items():
             run.assumptions.append(f"E4 {mname}: `{a}` taken as exchange-symmetric ({why})")
